@@ -1,6 +1,6 @@
 """A2: control-dependence gates of accept sites, must-flow of ingredients into hashed buffers,
 and the context-sensitive call-tree walk (entry point -> frames) used to lift facts to entry terms."""
-from dep import Engine, FnDep, strip, DEPTH, ALIAS_CALLS, fmt_atoms, fmt_atom
+from dep import Engine, FnDep, strip, DEPTH, ALIAS_CALLS, fmt_atoms, fmt_atom, rewrap
 from mir import fmt_term, fmt_op
 
 CMP_BINOPS = ('Eq', 'Ne', 'Lt', 'Le', 'Gt', 'Ge')
@@ -373,9 +373,9 @@ def _classify_value(eng, fd, pl, bi, line, depth, payload=False):
                                 if st[0] == 'p' and st[1] == 1:
                                     k = st[2][0] if st[2] else None
                                     if k is not None and str(k).isdigit() and int(k) < len(ci[1]):
-                                        oo |= fd.read_op(ci[1][int(k)])
+                                        oo |= rewrap(a, fd.read_op(ci[1][int(k)]))
                                 elif st[0] == 'p':
-                                    oo |= elem
+                                    oo |= rewrap(a, elem)
                                 else:
                                     oo.add(a)
                             ops2.append(oo)
@@ -413,9 +413,9 @@ def _classify_value(eng, fd, pl, bi, line, depth, payload=False):
                             if st[0] == 'p' and st[1] == 1:
                                 k = st[2][0] if st[2] else None
                                 if k is not None and str(k).isdigit() and int(k) < len(ci[1]):
-                                    oo |= fd.read_op(ci[1][int(k)])
+                                    oo |= rewrap(a, fd.read_op(ci[1][int(k)]))
                             elif st[0] == 'p':
-                                oo |= elem
+                                oo |= rewrap(a, elem)
                             else:
                                 oo.add(a)
                         ops2.append(oo)
@@ -452,9 +452,9 @@ def _classify_value(eng, fd, pl, bi, line, depth, payload=False):
                                 if st[0] == 'p' and st[1] == 1:
                                     k = st[2][0] if st[2] else None
                                     if k is not None and str(k).isdigit() and int(k) < len(ci[1]):
-                                        oo |= fd.read_op(ci[1][int(k)])
+                                        oo |= rewrap(a, fd.read_op(ci[1][int(k)]))
                                 elif st[0] == 'p':
-                                    oo |= elem
+                                    oo |= rewrap(a, elem)
                                 else:
                                     oo.add(a)
                             ops2.append(oo)
